@@ -4,11 +4,11 @@
 #   tools/verify_seed.sh <dir with patch.diff [demo.diff] [demo.js]> "<demo command run in the worktree>"
 set -u
 DIR=$(realpath "$1"); DEMO_CMD="$2"
-WT=/tmp/wt/verify
+WT=${VERIFY_WT:-/tmp/wt/verify}
 git -C /repo worktree remove --force $WT 2>/dev/null
 git -C /repo worktree add -q --detach $WT HEAD || exit 2
 cd $WT
-export CARGO_NET_OFFLINE=true CARGO_TARGET_DIR=/tmp/wt/verify_target
+export CARGO_NET_OFFLINE=true CARGO_TARGET_DIR=${WT}_target
 res() { echo "$1"; }
 git apply --whitespace=nowarn "$DIR/patch.diff" || { res "RESULT patch-does-not-apply"; exit 2; }
 T=$(cargo test --workspace --no-fail-fast --offline 2>&1 | grep -E "^test result" | head -1)
@@ -19,9 +19,9 @@ git checkout -q -- . ; git clean -fdq
 mkdir -p _out && cp -r "$DIR"/* _out/ 2>/dev/null
 [ -f "$DIR/demo.js" ] && cp "$DIR/demo.js" ./_demo.js
 for f in "$DIR"/demo_*.js "$DIR"/*.mjs; do [ -f "$f" ] && cp "$f" . ; done
-bash -c "$DEMO_CMD" > /tmp/wt/verify_without.log 2>&1; W=$?
+bash -c "$DEMO_CMD" > ${WT}_without.log 2>&1; W=$?
 git apply --whitespace=nowarn "$DIR/patch.diff"
-bash -c "$DEMO_CMD" > /tmp/wt/verify_with.log 2>&1; P=$?
+bash -c "$DEMO_CMD" > ${WT}_with.log 2>&1; P=$?
 echo "demo without patch: exit $W ; with patch: exit $P"
-if [ $BASE_OK = 1 ] && [ $W = 0 ] && [ $P != 0 ]; then res "RESULT confirmed"; else res "RESULT NOT-confirmed (baseline_ok=$BASE_OK without=$W with=$P)"; tail -5 /tmp/wt/verify_without.log; tail -5 /tmp/wt/verify_with.log; fi
+if [ $BASE_OK = 1 ] && [ $W = 0 ] && [ $P != 0 ]; then res "RESULT confirmed"; else res "RESULT NOT-confirmed (baseline_ok=$BASE_OK without=$W with=$P)"; tail -5 ${WT}_without.log; tail -5 ${WT}_with.log; fi
 cd /; git -C /repo worktree remove --force $WT
